@@ -70,8 +70,14 @@ var jobTable = map[string]jobSet{
 			// boosted (adaptive) resend timeouts: a Close that sat out a resend
 			// interval would now take several seconds
 			{Scenario: "closestall/N=1/adaptive/until=14s", Budgets: bs(B(1, 0)), Split: 1},
+			// a transport whose send call blocks until its context ends:
+			// Close may spend the FIN timeout on the FIN, nothing more
+			{Scenario: "closeblock/N=1/closers=1", Budgets: bs(B(1, 0)), Split: 1},
 		},
 		thorough: []Job{
+			{Scenario: "closestall/N=1/adaptive/until=14s", Budgets: bs(B(2, 0)), Split: 2},
+			{Scenario: "closeblock/N=1/closers=2", Budgets: bs(B(2, 0)), Split: 2},
+			{Scenario: "closeblock/N=2/side=c", Budgets: bs(B(2, 0)), Split: 2},
 			{Scenario: "close/N=2/k=2/closers=2", Budgets: bs(B(2, 0)), Split: 2},
 			{Scenario: "closestall/N=1/closers=2", Budgets: bs(B(2, 0)), Split: 2},
 			{Scenario: "closestall/N=2", Budgets: bs(B(2, 0)), Split: 2},
